@@ -191,14 +191,13 @@ Definition sock_close (r : reason) (s : st) : st :=
 Definition do_on_disconnect (rc : Z) (fb : bool) (s : st) : st :=
   run_site (if has_sock s then SiDiscOpen else SiDisconnect) true (CbDisconnect rc fb) s.
 
-(* the common tail of every "connection ended" path: state, result code, on_disconnect *)
-Definition lost_tail (rc : Z) (fb : bool) (s : st) : st * Z :=
-  if disc_state s then (do_on_disconnect (if fb then rc else 0) fb (set_cs CsDisconnected s), 0)
-  else (do_on_disconnect rc fb (set_cs CsConnectionLost s), rc).
+(* every "connection ended" path: new state and result code first, then _sock_close, then on_disconnect *)
+Definition lost (r : reason) (rc : Z) (fb : bool) (s : st) : st * Z :=
+  if disc_state s then (do_on_disconnect (if fb then rc else 0) fb (sock_close r (set_cs CsDisconnected s)), 0)
+  else (do_on_disconnect rc fb (sock_close r (set_cs CsConnectionLost s)), rc).
 
 (* _loop_rc_handle(rc), rc > 0 *)
-Definition loop_rc_handle (rc : Z) (s : st) : st * Z :=
-  lost_tail rc false (sock_close RError s).
+Definition loop_rc_handle (rc : Z) (s : st) : st * Z := lost RError rc false s.
 
 Definition push_front (p : qpkt) (s : st) : st := set_outq (p :: outq s) s.
 
@@ -227,8 +226,15 @@ Fixpoint pw_loop (n : nat) (s : st) : st * Z :=
                   | KPublish0 => pw_loop n' (run_site SiPublish true CbPublish s2)
                   | KDisconnect =>
                       let s3 := do_on_disconnect 0 false s2 in
-                      let s4 := sock_close RDiscWritten s3 in
-                      (match cs s4 with CsDisconnecting => set_cs CsDisconnected s4 | _ => s4 end, 0)
+                      (* close only if on_disconnect did not replace the socket by a reconnect() *)
+                      match sock s3 with
+                      | Some id' =>
+                          if id' =? id then
+                            let s4 := sock_close RDiscWritten s3 in
+                            (match cs s4 with CsDisconnecting => set_cs CsDisconnected s4 | _ => s4 end, 0)
+                          else (s3, 0)
+                      | None => (s3, 0)
+                      end
                   | _ => pw_loop n' s2
                   end
               end
@@ -257,7 +263,8 @@ Definition loop_write (s : st) : st * Z :=
 
 (* _packet_queue (no background thread) *)
 Definition packet_queue (k : pkind) (s : st) : st * Z :=
-  let s1 := set_outq (outq s ++ [mkQ k false]) s in
+  (* CONNECT goes ahead of whatever was queued since the socket was created *)
+  let s1 := set_outq (match k with KConnect => mkQ k false :: outq s | _ => outq s ++ [mkQ k false] end) s in
   if negb (c_ext c) && negb (incb s1) then loop_write s1
   else (call_regw s1, 0).
 
@@ -309,14 +316,20 @@ Definition exec_script (sc : list acall) (s : st) : st :=
 (* result of a handler as loop_read sees it: Some rc | None = exception *)
 Definition after_read (r : st * option Z) : st * option Z :=
   match r with
-  | (s, Some rc) => if rc >? 0 then let (s', rc') := loop_rc_handle rc s in (s', Some rc') else (s, Some 0)
+  | (s, Some rc) =>
+      if rc >? 0 then
+        match sock s with
+        | None => (s, Some rc)      (* a write made while handling the packet already closed and reported *)
+        | Some _ => let (s', rc') := loop_rc_handle rc s in (s', Some rc')
+        end
+      else (s, Some 0)
   | (s, None) => (s, None)
   end.
 
 Definition connack_err (rc : Z) : Z := if (0 <? rc) && (rc <? 6) then E_CONN_REFUSED else E_PROTOCOL.
 
 Definition handle_connack (rc : Z) (s : st) : st * option Z :=
-  let s1 := if rc =? 0 then set_cs CsConnected s else s in
+  let s1 := if rc =? 0 then (match cs s with CsDisconnecting => s | _ => set_cs CsConnected s end) else s in
   let s2 := run_site SiConnect true (CbConnect rc) s1 in
   (s2, Some (if rc =? 0 then 0 else connack_err rc)).
 
@@ -324,7 +337,7 @@ Definition downgrade (ok : bool) (s : st) : st * option Z :=
   reconnect_body ok (set_proto 3 s).
 
 Definition handle_server_disconnect (rc : Z) (s : st) : st * option Z :=
-  let (s1, _) := lost_tail rc true (sock_close RServerDisc s) in (s1, Some 0).
+  let (s1, _) := lost RServerDisc rc true s in (s1, Some 0).
 
 Definition loop_read (i : inp) (s : st) : st * option Z :=
   match sock s with
@@ -349,7 +362,7 @@ Definition loop_read (i : inp) (s : st) : st * option Z :=
   end.
 
 Definition keepalive_close (s : st) : st :=
-  fst (lost_tail E_KEEPALIVE false (sock_close RKeepalive s)).
+  fst (lost RKeepalive E_KEEPALIVE false s).
 
 Definition check_keepalive (m : misc) (s : st) : st :=
   match m with
